@@ -328,9 +328,15 @@ pub fn property() -> Property {
                     let r = TelegramTx::new(&mut buf).send_short_confirmation();
                     ensure!(r.bytes_sent() == 1 && buf[0] == 0xE5 && buf[1] == 0xAA, "sc-enc", "SC encodes to {:02x?} ({} bytes)", &buf[..2], r.bytes_sent());
                     ensure!(r.expects_reply().is_none(), "expects-reply", "SC expects a reply");
-                    match Telegram::deserialize(&buf[..1]) {
-                        Some(Ok((Telegram::ShortConfirmation(_), 1))) => {}
-                        o => fail!("sc-dec", "SC decodes to {:?}", o),
+                    // alone in the buffer and with anything behind it (the next telegram, noise)
+                    let followers: [&[u8]; 6] = [&[], &[0xAA], &[0xDC, 0x02, 0x01], &[0xE5], &[0x10, 0x02, 0x01, 0x49, 0x4C, 0x16], &[0x68, 0x05]];
+                    for f in followers {
+                        let mut input = vec![0xE5u8];
+                        input.extend_from_slice(f);
+                        match Telegram::deserialize(&input) {
+                            Some(Ok((Telegram::ShortConfirmation(_), 1))) => {}
+                            o => fail!("sc-dec", "SC followed by {:02x?} decodes to {:?} (expected SC, 1 byte consumed)", f, o),
+                        }
                     }
                     return Ok(());
                 }
